@@ -73,6 +73,7 @@ class World:
         self.unlinked: list[str] = []
         self.fail_file_io: set[str] = set()  # paths whose open() raises OSError
         self.on_unlink = None
+        self.preempt = None  # callable(point) invoked before each shared-memory / file operation of a disk job
 
 
 WORLD = World()
@@ -84,8 +85,14 @@ def reset_world() -> World:
     return WORLD
 
 
+def _point(what):
+    if WORLD.preempt is not None:
+        WORLD.preempt(what)
+
+
 class FakeSharedMemory:
     def __init__(self, name=None, create=False, size=0, **kw):
+        _point("shm-open")
         w = WORLD
         if create:
             if name in w.segs:
@@ -109,6 +116,7 @@ class FakeSharedMemory:
         pass
 
     def unlink(self):
+        _point("shm-unlink")
         w = WORLD
         if self._name not in w.segs:
             raise FileNotFoundError(self._name)
@@ -149,6 +157,7 @@ class _FakeFile:
 
 
 def fake_open(path, mode="r", *a, **k):
+    _point("file-open")
     if path in WORLD.fail_file_io:
         raise OSError(f"injected I/O failure on {path}")
     if "r" in mode and path not in WORLD.files:
